@@ -212,6 +212,12 @@ async fn oracle_cases() {
                     v.validator.power = 77u32.into();
                 }
             }
+            // the voting power of the first entry (an absent validator in one of the vote sets) differs
+            "power_first" => {
+                if let Some(v) = last_votes.first_mut() {
+                    v.validator.power = 77u32.into();
+                }
+            }
             "flag" => {
                 for v in &mut last_votes {
                     v.sig_info = BlockSignatureInfo::Flag(BlockIdFlag::Nil);
